@@ -19,11 +19,18 @@ func (e *Enc) extCall(ins ssa.Instruction, name string, callee *ssa.Function, si
 	reach := e.reach[e.curBlock]
 	trust := func(s string) { e.trustedUsed["external "+name+": "+s] = true }
 	nonNilResult := func() {
+		pre0 := h.clone()
 		rs := e.freshResults(sig, h)
 		e.assert(implies(reach, app("distinct", rs[len(rs)-1].T, "nil")))
 		e.havocKey(h, "$A")
+		// errors.New / fmt.Errorf build a new error value: a new object, hence none of the objects that existed before
+		// the call (in particular none of the package-level error variables)
+		apre := e.allocCounter(pre0)
 		for _, r := range rs {
 			e.assert(e.refOld(r, h))
+		}
+		if last := rs[len(rs)-1]; last.S == "Ref" {
+			e.assert(implies(reach, app(">", "(rootid "+last.T+")", apre)))
 		}
 		e.setResult(res, rs)
 	}
